@@ -197,6 +197,8 @@ def generate(prop, seed, n):
     out = []
     for i in range(n):
         case, opts, strict = GEN[prop](r)
+        if prop == "C17":
+            opts = dict(opts, ravia=r.choice(["rows", "rows", "rowview", "listview", "revview", "colview", "stepview", "ufunc", "flat", "assigned"]))
         if prop in ("C14", "C15", "C16", "C17"):
             opts = dict(opts, hi=r.choice([0, 48, 48, 16]))          # the high-bits realisation, where exec_rl.hi_ok allows it
         out.append({"id": i, "case": case, "opts": opts, "strict": strict})
@@ -274,7 +276,7 @@ def gen_c18(r):
     n = r.randint(0, 7)
     t = tab(n, 0)
     k = r.choice(["dc_new", "dc_len", "dc_getitem", "dc_getitem", "dc_getitem", "dc_iter", "dc_concat", "dc_concat", "dc_eq", "dc_astype", "vl_concat", "dc_bad"])
-    inh = {"inherit": r.random() < 0.4, "listmask": r.random() < 0.5, "npint": r.random() < 0.3, "firstdt": r.choice([None, None, "u1", "i2", "i4"])}
+    inh = {"inherit": r.random() < 0.4, "listmask": r.random() < 0.5, "npint": r.random() < 0.3, "firstdt": r.choice([None, None, "u1", "i2", "i4"]), "layout": r.choice(["C", "C", "F", "T", "mixed"])}
     if k == "dc_getitem":
         from .drivers_ragged import rnd_slice
         sel = r.choice([["int", r.randint(-n - 1, n)], rnd_slice(r, n), ["list", [r.randint(-n, n - 1) for _ in range(r.randint(0, 5))] if n else []],
